@@ -65,10 +65,14 @@ Triple gen_triple(Tape& t, double lo_hint, double hi_hint, bool have_range) {
     case 4: {  // interval = m*dt + small remainder around the 1e-6 append threshold
       static const double rem[] = {1e-7, 5e-7, 9.9e-7, 1e-6, 1.01e-6, 2e-6, 1e-5, 1e-4, 1e-3, -1e-7, -1e-6, -2e-6, -1e-4};
       r.a = gen_start();
-      r.dt = (1 + t.range(0, 255)) / 256.0;
-      int m = 1 + t.range(0, 3000);
-      r.b = r.a + m * r.dt + rem[t.range(0, 12)];
-      r.cls = "remainder-near-threshold";
+      static const double kScale[] = {1, 1, 1, 4, 25, 100, 1000};   // steps below, at and well above 1
+      r.dt = (1 + t.range(0, 255)) / 256.0 * kScale[t.range(0, 6)];
+      int m = 1 + t.range(0, r.dt > 1 ? 200 : 3000);
+      int ri = t.range(0, 16);
+      // absolute remainders around the 1e-6 threshold, and remainders of a few millionths OF A STEP on either side
+      double rm = ri < 13 ? rem[ri] : (ri == 13 ? -0.5e-6 : (ri == 14 ? -0.99e-6 : (ri == 15 ? 0.5e-6 : -3e-6))) * r.dt;
+      r.b = r.a + m * r.dt + rm;
+      r.cls = r.dt > 1 ? "remainder-near-threshold(step>1)" : "remainder-near-threshold";
       break;
     }
     case 5: {  // zero-length interval
@@ -330,6 +334,11 @@ void factories(Tape& t, Ctx& ctx, const char* tname) {
   using VectorType = typename PP::VectorType;
   int nseg = t.chance(1, 4) ? (31 + t.range(0, 3)) : t.rangez(1, 12, 2);
   std::vector<double> bk = gen_breakpoints(t, nseg);
+  // "every breakpoint vector": also vectors with bit-equal neighbours (a piece of zero length) and all entries equal
+  if (t.chance(1, 5)) {
+    if (t.chance(1, 4)) { for (auto& x : bk) x = bk[0]; ctx.label("factory-breakpoints:all-equal"); }
+    else { int reps = 1 + t.range(0, 1); for (int r = 0; r < reps; ++r) { int i = t.range(0, nseg - 1); bk[i + 1] = bk[i]; for (int j = i + 2; j <= nseg; ++j) bk[j] = std::max(bk[j], bk[i + 1]); } ctx.label("factory-breakpoints:repeated-entry"); }
+  }
   int maxc = FIXED > 0 ? FIXED : 12;
   int ncoef = t.rangez(1, maxc, 1);
   VectorType cv;
